@@ -15,7 +15,14 @@ MANIFEST = {
             "C05/C09/C14/C16/C20's own no-overread theorems. Trusted: Lean kernel (+ propext, Classical.choice, Quot.sound), harnesses, generators, sim_core.h.",
     "design_ref": "DESIGN.md §4 C02",
 }
-LEAN_MODULES = ["CoapVerif.Props.C02"]
+LEAN_MODULES = ["CoapVerif.Props.C02", "CoapVerif.Props.C05", "CoapVerif.Props.C16", "CoapVerif.Props.C20", "CoapVerif.Props.C09"]
+# the no-overread / no-out-of-range theorems of the readers owned by other properties: C02's claim rests on them
+REQUIRED_ELSEWHERE = {
+    "Coap.C05": ["reader_no_oob", "oversize_closes"],
+    "Coap.C16": ["no_overread"],
+    "Coap.C20": ["match_no_overread", "wellknown_no_overread"],
+    "Coap.C09": ["block_opt_bounds", "rblock_represents"],
+}
 NAMESPACE = "Coap.C02"
 REQUIRED_THEOREMS = ["parse_never_oob", "walk_never_oob", "rejected_never_dispatched", "dispatched_is_reference_decoding",
                      "malformed_reply_at_most_reset", "wrong_version_silently_ignored",
